@@ -42,6 +42,8 @@ var strTemplates = []strTemplate{
 	{"concat-index", 1, []Param{{"i", "int"}}, []string{"string"}, "\treturn s + string(s[i]) + string(rune(s[i]))\n", false},
 	{"bytes-literal", 1, []Param{{"i", "int"}, {"b", "byte"}}, []string{"string"}, "\treturn string([]byte{s[i], b, 0xff, 'a'})\n", false},
 	{"len-conv", 0, []Param{{"b", "byte"}, {"r", "rune"}}, []string{"int"}, "\treturn len(string(b))*10 + len(string(r))\n", false},
+	{"raw-and-interpreted-same-body", 1, nil, []string{"int"}, "\ta := \"x\\ty\\n\"\n\tb := `x\\ty\\n`\n\tc := \"q\\\\z\"\n\td := `q\\\\z`\n\tfmt.Println(a == b, len(a), len(b), a < b, c == d, len(c), len(d), s+a == s+b)\n\treturn len(a)*1000 + len(b)*100 + len(c)*10 + len(d)\n", true},
+	{"raw-then-interpreted", 0, nil, []string{"string"}, "\tb := `u\\tv`\n\ta := \"u\\tv\"\n\treturn a + \"|\" + b\n", false},
 	{"eq", 2, nil, []string{"bool"}, "\treturn s == t\n", false},
 	{"neq", 2, nil, []string{"bool"}, "\treturn s != t\n", false},
 	{"lt", 2, nil, []string{"bool"}, "\treturn s < t\n", false},
